@@ -545,7 +545,8 @@ def observe_raw(par):
 
 def real_read(ctx, text, modes=('name', 'text', 'binary', 'raw')):
     from pydl.pydlutils.yanny import yanny
-    fn = os.path.join(ctx.tmpdir(), 'l%d.par' % next(_counter))
+    k = next(_counter)
+    fn = os.path.join(ctx.tmpdir(), 'l%d.par' % k)
     with open(fn, 'wb') as f:
         f.write(text.encode('ascii'))
     res = {}
@@ -555,11 +556,19 @@ def real_read(ctx, text, modes=('name', 'text', 'binary', 'raw')):
                 if mode == 'name':
                     par = yanny(fn)
                 elif mode == 'text':
-                    with open(fn, 'r') as f:
+                    # every way open() hands out a text / binary object: read-only, update, a temporary file
+                    with open(fn, ('r', 'rt', 'r+')[k % 3]) as f:
                         par = yanny(f)
                 elif mode == 'binary':
-                    with open(fn, 'rb') as f:
-                        par = yanny(f)
+                    if k % 4 == 3:
+                        import tempfile
+                        with tempfile.TemporaryFile() as f:
+                            f.write(text.encode('ascii'))
+                            f.seek(0)
+                            par = yanny(f)
+                    else:
+                        with open(fn, ('rb', 'rb+', 'r+b')[k % 4]) as f:
+                            par = yanny(f)
                 else:
                     par = yanny(fn, raw=True)
                 res[mode] = {'ok': observe_raw(par) if mode == 'raw' else c01.observe(par), 'sym': c01._symbols(par)}
